@@ -38,7 +38,13 @@ fn class_name(c: u64) -> String {
 fn kernel_case(n: i128, d: i128, mode: RoundingMode, via_default: bool, l: &mut Local, large: bool) {
     let (num, den) = if d < 0 { (I512::from_i128(n).neg(), I512::from_i128(d).abs()) } else { (I512::from_i128(n), I512::from_i128(d)) };
     let r = round_div(&num, &den.mag, mode);
+    // the #[doc(hidden)] rounding kernel itself; in an engine built without feature hidden-rounded (the kernel's
+    // signature changed) the same quotient through the public API: (n, 0).div_rounded((d, 0), 0) under the
+    // thread's mode, which every caller of kernel_case has set to `mode`
+    #[cfg(feature = "hidden-rounded")]
     let got = catch(|| fpdec_core::i128_div_rounded(n, d, if via_default { None } else { Some(mode) }));
+    #[cfg(not(feature = "hidden-rounded"))]
+    let got = { let _ = via_default; catch(|| fpdec::DivRounded::div_rounded(fpdec::Decimal::new_raw(n, 0), fpdec::Decimal::new_raw(d, 0), 0).coefficient()) };
     l.evals += 1;
     let c = if large { code(1, mode_idx(mode), r.negative, 0, r.rem_class, 0) } else { code(0, mode_idx(mode), r.negative, r.last_digit, r.rem_class, 0) };
     if l.class(c) {
@@ -55,7 +61,7 @@ fn kernel_case(n: i128, d: i128, mode: RoundingMode, via_default: bool, l: &mut 
     if !ok {
         let kind = if got.is_err() { "panicked" } else { "wrong-value" };
         l.violation(
-            format!("i128_div_rounded | {} | {}", if large { "large operands" } else { "small operands" }, kind),
+            format!("{} | {} | {}", if cfg!(feature = "hidden-rounded") { "i128_div_rounded" } else { "Decimal.div_rounded(Decimal, 0) in place of i128_div_rounded" }, if large { "large operands" } else { "small operands" }, kind),
             || (format!("n={} d={} mode={} via_default={} model={} impl={:?}", n, d, mode_name(mode), via_default, r.value.to_dec_string(), got),
             json!({"k":"kernel","n":n.to_string(),"d":d.to_string(),"mode":mode_name(mode),"via_default":via_default,"large":large})),
         );
